@@ -7,6 +7,7 @@ The operator table `condsTable` is generated from androguard/decompiler/instruct
 All statements quantify over every graph, every condition tree, every merge sequence and all operand values.
 -/
 import AgVerif.Proof.ShortCircuitGraph
+import AgVerif.Proof.WriterVisit
 
 namespace AgVerif.C25
 open AgVerif.ShortCircuit
@@ -89,6 +90,15 @@ theorem printed_node_step {G : CGraph} {n : Nat} {x : CNode} (hl : G.look n = so
     G.next env n = some (if (writerPrint k x).2.eval env then (writerPrint k x).1.t else (writerPrint k x).1.f) := by
   rw [printed_routes env k x h]; exact next_of_look hl
 
+/-! ## the writer prints each condition once (loop-free fragment of the visit discipline) -/
+
+/-- visit_node / visit_cond_node / visit_statement_node / visit_return_node with the `visited_nodes` set and the
+    `if_follow` stack, on ANY graph (cyclic or not, any follow annotation, any numbering), from any entry:
+    no conditional node has its condition printed twice.  (Loop / switch / try nodes are not in this fragment.) -/
+theorem writer_prints_each_cond_once (g : WriterVisit.WGraph) (fuel entry : Nat) :
+    ((WriterVisit.visitNode g fuel [] entry ⟨[], []⟩).out.map (·.1)).Nodup :=
+  (WriterVisit.visitNode_inv g fuel [] entry ⟨[], []⟩ ⟨List.nodup_nil, by simp⟩).1
+
 /-! ## honest witnesses -/
 
 /-- `!(a < b) || (c == d)` as short_circuit_struct builds it -/
@@ -151,6 +161,13 @@ example : wNotOr.WF := by decide
 example : (print wNotOr).2.render = "(p0 >= p1) || (p2 == p3)" := by
   obtain ⟨-, -, h3, -⟩ := negOp_cases
   simp only [wNotOr, print_sc, print_leaf, Cond.neg, h3, if_true]
+  decide
+
+/-- the visit model prints both conditions of `if (c0) { if (c1) return 0; } return 1;`, the second one negated -/
+example :
+    (WriterVisit.visitNode
+      ⟨fun n => if n = 0 then some (.cond 1 2001 (some 2001)) else if n = 1 then some (.cond 2001 2000 (some 2001))
+                else if n ≥ 2000 then some .ret else none, fun n => n⟩ 10 [] 0 ⟨[], []⟩).out = [(0, false), (1, true)] := by
   decide
 
 end AgVerif.C25
